@@ -49,6 +49,14 @@ fn occ_events(log: &mut Log, b: &Vec<u8>, alphabet: &Alphabet, syms: &Vec<u8>, k
             if nck >= 3 {
                 log.oblige("k_gt64_three_checkpoints");
             }
+            // n an exact multiple of k: hi_checkpoint * k == n for the rows of the last block (no such
+            // checkpoint exists); k == n is the single-block case of it
+            if n % ku == 0 && n > ku {
+                log.oblige("k_gt64_divides_n");
+            }
+            if n == ku {
+                log.oblige("k_gt64_equals_n");
+            }
             if (n - 1) % ku != 0 && nck >= 2 {
                 log.oblige("k_gt64_last_partial_block");
             }
